@@ -10,6 +10,7 @@ import (
 
 	"golang.org/x/tools/go/ssa"
 
+	"iocvet/internal/absint"
 	"iocvet/internal/core"
 )
 
@@ -276,20 +277,7 @@ func sortedCollector(c *core.Ctx, s unorderedSource) (bool, string) {
 			}
 		}
 	}
-	sort2 := c.Func("util/sort2", "Slice")
-	strict := func(call *ssa.Call) bool {
-		cmp := core.ClosureOf(call.Common().Args[1])
-		if cmp == nil || len(cmp.Blocks) != 1 {
-			return false
-		}
-		ret, isRet := cmp.Blocks[0].Instrs[len(cmp.Blocks[0].Instrs)-1].(*ssa.Return)
-		if !isRet {
-			return false
-		}
-		b, isB := ret.Results[0].(*ssa.BinOp)
-		return isB && b.Op == token.LSS && b.X == ssa.Value(cmp.Params[0]) && b.Y == ssa.Value(cmp.Params[1])
-	}
-	why := "no sort2.Slice with a strict `<` comparator sorts what the map range collected"
+	why := "no strict ascending sort of what the map range collected"
 	// (a) visited in place: the loop with the dynamic (callback) call ranges over a slice sorted before it
 	for _, rl := range core.RangeLoops(s.fn) {
 		hasDyn := false
@@ -319,10 +307,11 @@ func sortedCollector(c *core.Ctx, s unorderedSource) (bool, string) {
 		okRet := false
 		for _, ci := range core.Calls(s.fn) {
 			call, isCall := ci.(*ssa.Call)
-			if !isCall || !core.IsCallTo(call.Common(), sort2) || !strict(call) {
+			if !isCall {
 				continue
 			}
-			if core.Norm(call.Common().Args[0]) == core.Norm(ret.Results[0]) && core.Dominates(call, ret) && !loop.Blocks[call.Block()] {
+			sorted, _ := strictlySorted(c, call)
+			if sorted != nil && sorted == core.Norm(ret.Results[0]) && core.Dominates(call, ret) && !loop.Blocks[call.Block()] {
 				okRet = true
 			}
 		}
@@ -352,35 +341,137 @@ func onlyLenUses(v ssa.Value) bool {
 	return true
 }
 
-// sortedBeforeLoop: the slice ranged by the loop containing `site` was sorted by a strict `<` comparator before the loop.
+// strictlySorted: call sorts a slice into strictly ascending order of its (distinct) elements; returns the slice.
+// Recognised: sort2.Slice with the comparator `a < b` on its two parameters, sort.Strings / sort.Ints, and
+// sort.Sort / sort.Stable of a named slice type whose Len / Less / Swap - interpreted on every permutation of three
+// distinct elements - leave them ascending.
+func strictlySorted(c *core.Ctx, call *ssa.Call) (ssa.Value, string) {
+	com := call.Common()
+	cal := com.StaticCallee()
+	if cal == nil {
+		return nil, ""
+	}
+	if o := cal.Origin(); o != nil {
+		cal = o
+	}
+	switch {
+	case cal == c.Func("util/sort2", "Slice"):
+		cmp := core.ClosureOf(com.Args[1])
+		if cmp == nil || len(cmp.Blocks) != 1 {
+			return nil, "comparator is not a simple literal"
+		}
+		ret, isRet := cmp.Blocks[0].Instrs[len(cmp.Blocks[0].Instrs)-1].(*ssa.Return)
+		if !isRet {
+			return nil, "comparator shape"
+		}
+		b, isB := ret.Results[0].(*ssa.BinOp)
+		if !isB || b.Op != token.LSS || b.X != ssa.Value(cmp.Params[0]) || b.Y != ssa.Value(cmp.Params[1]) {
+			return nil, "comparator is not `a < b` on its two parameters"
+		}
+		return core.Norm(com.Args[0]), ""
+	case cal.String() == "sort.Strings" || cal.String() == "sort.Ints":
+		return core.Norm(com.Args[0]), ""
+	case cal.String() == "sort.Sort" || cal.String() == "sort.Stable":
+		mi, ok := com.Args[0].(*ssa.MakeInterface)
+		if !ok {
+			return nil, "sort.Sort of a value whose type is not visible"
+		}
+		if ok, why := sortsAscending(c, mi.X.Type()); !ok {
+			return nil, why
+		}
+		return core.Norm(mi.X), ""
+	}
+	return nil, ""
+}
+
+// sortsAscending interprets sort.Sort over T's own Len / Less / Swap on every permutation of three distinct elements.
+func sortsAscending(c *core.Ctx, T types.Type) (bool, string) {
+	key := "sorts-ascending:" + T.String()
+	if v, ok := c.Memo.Load(key); ok {
+		return v.(string) == "", v.(string)
+	}
+	why := func() (why string) {
+		sl, ok := T.Underlying().(*types.Slice)
+		if !ok {
+			return "sort.Sort of something that is not a slice type"
+		}
+		b, ok := sl.Elem().Underlying().(*types.Basic)
+		if !ok || b.Info()&(types.IsString|types.IsInteger) == 0 {
+			return "sort.Sort of a slice whose elements are neither strings nor integers"
+		}
+		mk := func(i int) absint.Value {
+			if b.Info()&types.IsString != 0 {
+				return absint.Str(string(rune('a' + i)))
+			}
+			return absint.Int(int64(i))
+		}
+		defer func() {
+			if r := recover(); r != nil {
+				switch x := r.(type) {
+				case *absint.Undecided:
+					why = "interpreting " + T.String() + "'s Len/Less/Swap left the model: " + x.Msg
+				case *absint.GoPanic:
+					why = T.String() + "'s Len/Less/Swap panic: " + x.Msg
+				default:
+					panic(r)
+				}
+			}
+		}()
+		canon := map[int]string{}
+		for _, perm := range [][]int{{0, 1, 2}, {0, 2, 1}, {1, 0, 2}, {1, 2, 0}, {2, 0, 1}, {2, 1, 0}} {
+			t := newTbl(c)
+			ip := absint.New(t)
+			ip.IsLog = core.IsLogCall
+			ip.InScope = c.InScope
+			l := &absint.List{GoType: T, IsNil: len(perm) == 0}
+			for _, i := range perm {
+				l.Elems = append(l.Elems, mk(i))
+			}
+			t.sortInterface(ip, l)
+			// one canonical order, whatever order the elements came in (ascending or descending alike)
+			got := absint.Show(l)
+			if prev, seen := canon[len(perm)]; seen && prev != got {
+				return fmt.Sprintf("%s's Len/Less/Swap leave the same elements as %s or as %s, depending on the order they came in", T.String(), prev, got)
+			}
+			canon[len(perm)] = got
+			have := map[string]bool{}
+			for _, e := range l.Elems {
+				have[absint.Show(e)] = true
+			}
+			if len(l.Elems) != len(perm) || len(have) != len(perm) {
+				return fmt.Sprintf("%s's Len/Less/Swap turn %v into %s: elements lost or duplicated", T.String(), perm, got)
+			}
+		}
+		return ""
+	}()
+	c.Memo.Store(key, why)
+	return why == "", why
+}
+
+// sortedBeforeLoop: the slice ranged by the loop was sorted into strictly ascending order before the loop.
 func sortedBeforeLoop(c *core.Ctx, fn *ssa.Function, rl *core.RangeLoop) (bool, string) {
-	sort2 := c.Func("util/sort2", "Slice")
+	why := "no strict ascending sort of the ranged slice dominates the loop"
 	for _, ci := range core.Calls(fn) {
 		call, ok := ci.(*ssa.Call)
-		if !ok || !core.IsCallTo(call.Common(), sort2) {
+		if !ok {
 			continue
 		}
-		if core.Norm(call.Common().Args[0]) != core.Norm(rl.Slice) {
+		sorted, w := strictlySorted(c, call)
+		if sorted == nil {
+			if w != "" {
+				why = w
+			}
+			continue
+		}
+		if sorted != core.Norm(rl.Slice) {
 			continue
 		}
 		if !core.Dominates(call, rl.Header.Instrs[0]) || rl.Loop.Blocks[call.Block()] {
 			continue
 		}
-		cmp := core.ClosureOf(call.Common().Args[1])
-		if cmp == nil || len(cmp.Blocks) != 1 {
-			return false, "comparator is not a simple literal"
-		}
-		ret, isRet := cmp.Blocks[0].Instrs[len(cmp.Blocks[0].Instrs)-1].(*ssa.Return)
-		if !isRet {
-			return false, "comparator shape"
-		}
-		b, isB := ret.Results[0].(*ssa.BinOp)
-		if !isB || b.Op != token.LSS || b.X != ssa.Value(cmp.Params[0]) || b.Y != ssa.Value(cmp.Params[1]) {
-			return false, "comparator is not `a < b` on its two parameters"
-		}
 		return true, ""
 	}
-	return false, "no sort2.Slice of the ranged slice dominates the loop"
+	return false, why
 }
 
 func c10(c *core.Ctx, r *core.Report) {
@@ -500,7 +591,8 @@ func c10(c *core.Ctx, r *core.Report) {
 			for _, rf := range *s.val.Referrers() {
 				switch x := rf.(type) {
 				case *ssa.Call:
-					if bi, isB := x.Common().Value.(*ssa.Builtin); !isB || bi.Name() != "append" {
+					// (its length is the same in every order)
+					if bi, isB := x.Common().Value.(*ssa.Builtin); !isB || (bi.Name() != "append" && bi.Name() != "len") {
 						okApp = false
 					}
 				case *ssa.DebugRef:
@@ -619,11 +711,27 @@ func c10Registration(c *core.Ctx, r *core.Report, s unorderedSource, cons string
 					// a helper without effects of its own (it only computes its result from its arguments; what the
 					// loop does with the result is judged where it is stored)
 					pure := true
+					// a method of a collector that is a local variable of the registering function: what it writes
+					// through its receiver stays in that local, exactly as an append to a local slice does
+					recvLocal := false
+					if cal.Signature.Recv() != nil && len(com.Args) > 0 && len(cal.Params) > 0 {
+						if al, isAl := com.Args[0].(*ssa.Alloc); isAl && al.Parent() == fn && localOnlyReceiver(al) {
+							recvLocal = true
+						}
+					}
 					for _, f := range c.StaticCalleesInPkg(cal, nil) {
 						for _, bb := range f.Blocks {
 							for _, ii := range bb.Instrs {
 								switch y := ii.(type) {
 								case *ssa.Store:
+									if recvLocal && f == cal && rootedAt(y.Addr, cal.Params[0]) {
+										continue // fills the caller's local collector (as a local append would)
+									}
+									if fa, isFA := y.Addr.(*ssa.FieldAddr); isFA {
+										if _, fresh := fa.X.(*ssa.Alloc); fresh {
+											continue // initialises an object the function has just made
+										}
+									}
 									if _, local := y.Addr.(*ssa.Alloc); !local {
 										ia, isIA := y.Addr.(*ssa.IndexAddr)
 										_, localArr := (func() (ssa.Value, bool) {
@@ -687,6 +795,55 @@ func c10Registration(c *core.Ctx, r *core.Report, s unorderedSource, cons string
 		}
 	}
 	r.Check(bad == "", "C10.R1", cons, pos, "REGISTRATION-ORDER: component names arrive unordered, but inside the loop they only fill keyed containers and lists that are sorted by the ordering contract before use; processors of equal rank handle disjoint tags, definition-registry and factory post-processors act per tag / once "+bad)
+}
+
+// rootedAt: the address is reached from root through field selections, element selections and loads only.
+func rootedAt(addr ssa.Value, root ssa.Value) bool {
+	for i := 0; i < 8 && addr != nil; i++ {
+		if addr == root {
+			return true
+		}
+		switch x := addr.(type) {
+		case *ssa.FieldAddr:
+			addr = x.X
+		case *ssa.IndexAddr:
+			addr = x.X
+		case *ssa.UnOp:
+			if x.Op != token.MUL {
+				return false
+			}
+			addr = x.X
+		default:
+			return false
+		}
+	}
+	return false
+}
+
+// localOnlyReceiver: the local variable is used only as the receiver of static method calls (it is never stored,
+// captured or handed to anything else).
+func localOnlyReceiver(al *ssa.Alloc) bool {
+	for _, rf := range *al.Referrers() {
+		switch x := rf.(type) {
+		case *ssa.DebugRef:
+		case *ssa.Call:
+			if x.Common().StaticCallee() == nil || x.Common().StaticCallee().Signature.Recv() == nil || len(x.Common().Args) == 0 || x.Common().Args[0] != ssa.Value(al) {
+				return false
+			}
+			for _, a := range x.Common().Args[1:] {
+				if a == ssa.Value(al) {
+					return false
+				}
+			}
+		case *ssa.Store:
+			if x.Addr != ssa.Value(al) {
+				return false // the address itself is stored somewhere
+			}
+		default:
+			return false
+		}
+	}
+	return true
 }
 
 // freshSlice: v is a slice the function made itself (make / append result / slice of a local array).
